@@ -211,7 +211,7 @@ theorem step_inv (h : InvQ ⟨P, base, (· = 0), [], Q, Q⟩ s) (hP : P ⟨s.n.t
       simp only []
       obtain ⟨q, h2⟩ := clientRecover_inv h1
       split
-      · exact ⟨Q, h.fail _⟩
+      · exact ⟨Q, (h.fail _).setForeign _⟩
       · rename_i s' heq
         split at heq
         · cases heq
